@@ -456,11 +456,16 @@ class Check:
         self.broken_proof = None
 
     def violation(self, replay, found_input):
+        """recorded now, printed by finish(): a violation with a concrete failing input supersedes the
+        ones that only name a theorem or correspondence that no longer checks"""
         self.violations.append((replay, found_input))
-        print("VIOLATION property=%s replay=%s%s" % (self.prop, replay, "" if found_input else " no-failing-input-found"),
-              flush=True)
 
     def finish(self, level="proof"):
+        if any(f for _, f in self.violations):
+            self.violations = [v for v in self.violations if v[1]]
+        for replay, found_input in self.violations:
+            print("VIOLATION property=%s replay=%s%s" % (self.prop, replay, "" if found_input else " no-failing-input-found"),
+                  flush=True)
         os.makedirs(EVID, exist_ok=True)
         ev = {
             "property_id": self.prop,
